@@ -133,9 +133,15 @@ func TestVerifC16(t *testing.T) {
 
 func c16connectedness(r *kernel.Run, strategy int) {
 	m := NewConnectednessManager()
-	ctx, cancel := context.WithCancel(context.Background())
-	defer cancel()
 	nwaiters := 1 + r.Choose(2)
+	// every waiter has its own context: cancelling one waiter must not disturb the others
+	ctxs := make([]context.Context, nwaiters)
+	cancels := make([]context.CancelFunc, nwaiters)
+	for i := range ctxs {
+		ctxs[i], cancels[i] = context.WithCancel(context.Background())
+		defer cancels[i]()
+	}
+	cancelTarget := r.Choose(nwaiters + 1) // index of the waiter to cancel, nwaiters = all
 	nupd := 1 + r.Choose(3)
 	withCancel := r.Choose(4) == 3
 	groups := []string{"g0", "g1"}
@@ -157,7 +163,7 @@ func c16connectedness(r *kernel.Run, strategy int) {
 	if pre == 2 {
 		m.AssociatePeer("g0", peer.ID("p1"))
 	}
-	r.Logf("connectedness: waiters=%d updates=%v cancel=%v pre=%d strategy=%d", nwaiters, plan, withCancel, pre, strategy)
+	r.Logf("connectedness: waiters=%d updates=%v cancel=%v target=%d pre=%d strategy=%d", nwaiters, plan, withCancel, cancelTarget, pre, strategy)
 
 	var seq atomic.Int64
 	var hmu sync.Mutex
@@ -175,6 +181,7 @@ func c16connectedness(r *kernel.Run, strategy int) {
 		rec(9, c16in{op: "assoc", group: "g0", peer: "p1"}, seq.Add(1), c16out{})
 	}
 	s := sched.New(r.Choose, strategy, func(f string, a ...any) { r.Logf(f, a...); r.Step() })
+	cancelledW := make([]atomic.Bool, nwaiters)
 	var cancelled atomic.Bool
 	updaterDone := atomic.Bool{}
 	type wstate struct {
@@ -197,7 +204,7 @@ func c16connectedness(r *kernel.Run, strategy int) {
 					seen[string(p)] = int(st)
 				}
 				call := seq.Add(1)
-				updated, ok := m.WaitForConnectednessChange(ctx, w.group, w.current)
+				updated, ok := m.WaitForConnectednessChange(ctxs[i], w.group, w.current)
 				us := make([]string, len(updated))
 				for j, p := range updated {
 					us[j] = string(p)
@@ -225,7 +232,15 @@ func c16connectedness(r *kernel.Run, strategy int) {
 		updaterDone.Store(true)
 	})
 	if withCancel {
-		s.Go("canceller", func() { cancelled.Store(true); cancel() })
+		s.Go("canceller", func() {
+			cancelled.Store(true)
+			for i := range cancels {
+				if cancelTarget == nwaiters || cancelTarget == i {
+					cancelledW[i].Store(true)
+					cancels[i]()
+				}
+			}
+		})
 	}
 	for s.Steps < 800 && s.Step() {
 	}
@@ -254,7 +269,7 @@ func c16connectedness(r *kernel.Run, strategy int) {
 		var wi int
 		fmt.Sscanf(t.Label, "waiter%d", &wi)
 		w := ws[wi]
-		if cancelled.Load() {
+		if cancelledW[wi].Load() {
 			r.Violate("cancel", "cancelled-wait-blocked", "%s: context cancelled but WaitForConnectednessChange is still blocked in %s", t.Label, t.BlockedIn())
 			continue
 		}
@@ -263,7 +278,13 @@ func c16connectedness(r *kernel.Run, strategy int) {
 		}
 		// missed update: the tracked state must equal what this waiter last saw
 		if sg, ok := m.groupState[w.group]; ok {
-			for p, ps := range sg.peers {
+			var pids []peer.ID
+			for p := range sg.peers {
+				pids = append(pids, p)
+			}
+			sort.Slice(pids, func(i, j int) bool { return pids[i] < pids[j] })
+			for _, p := range pids {
+				ps := sg.peers[p]
 				seen, ok := w.current[p]
 				if !ok || seen != ps.status {
 					r.Violate("missed-update", "waiter-blocked-with-stale-view", "%s is blocked in %s although peer %s of group %s has status %d and the waiter last saw %v (known=%v); the updater has finished",
@@ -272,7 +293,9 @@ func c16connectedness(r *kernel.Run, strategy int) {
 			}
 		}
 	}
-	cancel()
+	for _, c := range cancels {
+		c()
+	}
 	s.Abort()
 	if r.Failed() {
 		return
